@@ -630,11 +630,65 @@ impl Params {
 fn pattern(n: usize) -> Vec<u8> {
     (0..n).map(|i| ((7 * i + 3) % 251) as u8).collect()
 }
+/// Seeds from here on select payloads that LOOK LIKE the crate's own framing (always exactly `n` bytes).
+const FLAVOUR_BASE: u64 = 1 << 40;
+const N_FLAVOURS: u64 = 8;
+
+fn fit(mut base: Vec<u8>, n: usize) -> Vec<u8> {
+    if base.is_empty() { base.push(0x28); }
+    while base.len() < n { let k = (n - base.len()).min(base.len()); let ext = base[..k].to_vec(); base.extend(ext); }
+    base.truncate(n);
+    base
+}
+
 fn content(seed: u64, n: usize) -> Vec<u8> {
     if seed == 0 {
-        pattern(n)
-    } else {
-        Rng::new(seed).bytes(n)
+        return pattern(n);
+    }
+    if seed < FLAVOUR_BASE {
+        return Rng::new(seed).bytes(n);
+    }
+    const MAGIC: [u8; 4] = [0x28, 0xB5, 0x2F, 0xFD];
+    match (seed - FLAVOUR_BASE) % N_FLAVOURS {
+        // a complete, valid zstd stream of exactly n bytes: a frame (compressed pattern, or incompressible noise = "a recorded
+        // compressed stream of another payload") padded with a skippable frame
+        k @ (0 | 1) => {
+            let inner = if k == 0 { pattern(n / 2) } else { Rng::new(seed).bytes(n / 2) };
+            let mut inner_len = inner.len();
+            loop {
+                let mut f = zstd::encode_all(&inner[..inner_len], if k == 0 { 3 } else { -1 }).unwrap_or_default();
+                if f.len() == n { return f; }
+                if f.len() + 8 <= n {
+                    let pad = n - f.len() - 8;
+                    f.extend([0x50, 0x2A, 0x4D, 0x18]);
+                    f.extend((pad as u32).to_le_bytes());
+                    f.extend(std::iter::repeat(0xA5).take(pad));
+                    return f;
+                }
+                if inner_len == 0 { let mut g = MAGIC.to_vec(); g.extend(Rng::new(seed).bytes(n)); return fit(g, n); }
+                inner_len /= 2;
+            }
+        }
+        // the zstd magic followed by garbage
+        2 => { let mut g = MAGIC.to_vec(); g.extend(Rng::new(seed).bytes(n)); fit(g, n) }
+        // the magic alone / repeated
+        3 => fit(MAGIC.to_vec(), n),
+        // consistent REPE frames (spec bytes 0x1507, lengths that add up), one after the other
+        4 => {
+            let mut g = Vec::new();
+            let mut id = seed;
+            while g.len() < n.max(1) { g.extend(RawFrame::request(id, id % 2 == 0, 1, b"/_svs/next", 1, &beve::to_vec(&NextRequest { stream_id: id }).unwrap()).to_vec()); id += 1; }
+            fit(g, n)
+        }
+        // BEVE: an OpenResponse, a NextRequest, a record — the bodies the protocol itself carries
+        5 => {
+            let mut g = beve::to_vec(&OpenResponse { version: 1, stream_id: 1, format: 1, compression: 1 }).unwrap();
+            g.extend(beve::to_vec(&make_rec(seed, 5)).unwrap());
+            fit(g, n)
+        }
+        // the `last` marker byte patterns
+        6 => fit(vec![0x01], n),
+        _ => fit(vec![0x00, 0x01, 0x01, 0x00, 0xFF, 0x01], n),
     }
 }
 
@@ -1635,32 +1689,48 @@ fn exec_cnext(sv: &mut Servers, out: &mut Out, idx: &str, p: &Params, k: usize) 
             let body = beve::to_vec(&NextRequest { stream_id: id }).unwrap();
             let mut total = 0usize;
             let mut lasts = 0usize;
+            let mut gave_up = false;
             match Conn::connect(sv, &p.srv, addr) {
                 Err(e) => failures.push(("svs.raw.connect".into(), e)),
                 Ok(mut conn) => {
                     let mut refused = 0usize;
-                    'outer: for _round in 0..20_000 {
-                        let ids: Vec<u64> = (0..k).filter_map(|_| conn.send(sv, "/_svs/next", &body, false).ok()).collect();
-                        let mut all_final_errors = !ids.is_empty();
-                        for rid in ids {
-                            match conn.wait(sv, rid) {
-                                Err(e) => { failures.push((format!("svs.cnext.{}", e.split(':').next().unwrap_or("io").replace(' ', "_")), format!("pipelined next: {e}"))); break 'outer; }
-                                Ok(f) if f.h.ec == 8 => { refused += 1; all_final_errors = false; }
-                                Ok(f) if f.h.ec != 0 => {}
-                                Ok(f) => {
-                                    all_final_errors = false;
-                                    let last = f.query.first().copied().unwrap_or(255);
-                                    total += f.body.len();
-                                    if last == 1 { lasts += 1; }
-                                    toks.push(show_pulled(&Pulled::Chunk { body: f.body, last }, known));
-                                }
+                    let t0 = Instant::now();
+                    // a sliding window of k outstanding `next`s: every answer is followed at once by a new request
+                    let mut outstanding: std::collections::VecDeque<u64> = std::collections::VecDeque::new();
+                    let mut over = false;
+                    loop {
+                        while !over && outstanding.len() < k {
+                            match conn.send(sv, "/_svs/next", &body, false) {
+                                Ok(rid) => outstanding.push_back(rid),
+                                Err(e) => { failures.push(("svs.cnext.send".into(), e)); over = true; }
                             }
                         }
-                        if all_final_errors { break; }
+                        let Some(rid) = outstanding.pop_front() else { break };
+                        if t0.elapsed() > Duration::from_secs(6) {
+                            // refusals are legitimate and can go on for as long as the server likes: no verdict from this case
+                            gave_up = true;
+                            break;
+                        }
+                        match conn.wait(sv, rid) {
+                            Err(e) => { failures.push((format!("svs.cnext.{}", e.split(':').next().unwrap_or("io").replace(' ', "_")), format!("pipelined next: {e}"))); break; }
+                            Ok(f) if f.h.ec == 8 => { refused += 1; }
+                            Ok(f) if f.h.ec != 0 => { over = true; }
+                            Ok(f) => {
+                                let last = f.query.first().copied().unwrap_or(255);
+                                total += f.body.len();
+                                if last == 1 { lasts += 1; over = true; }
+                                toks.push(show_pulled(&Pulled::Chunk { body: f.body, last }, known));
+                            }
+                        }
                     }
                     out.add("svs.cnext.refused_by_offreader_cap", refused as u64);
                     conn.close(sv);
                 }
+            }
+            if gave_up {
+                out.count("svs.cnext.wsc1_gave_up_after_4s");
+                unregister(&resource);
+                return None;
             }
             if failures.is_empty() {
                 if lasts != 1 { failures.push(("svs.cnext.last_count".into(), format!("pipelined consumer under an off-reader cap of 1 saw {lasts} chunks with last=1"))); }
@@ -2816,6 +2886,7 @@ fn main() {
         let depth_pick = if r.chance(1, 12) { *r.pick(&[16usize, 64, 1024]) } else { r.below(9) as usize };
         let mut p = sized(&mut r, base(srv_pick, kind, comp, chunk, depth_pick), n);
         if comp == 1 && (kind == "reader") { p.seed = 1 + r.below(1 << 30); }
+        if (kind == "reader" || kind.starts_with("writer")) && r.chance(1, 8) { p.seed = FLAVOUR_BASE + r.below(8000); }
         if kind == "reader" && r.chance(1, 4) { p.interrupt = 2 + r.below(3) as usize; }
         if kind.starts_with("writer") && comp == 1 { p.variant = format!("e={}", evs_tok(&p.evs).replace(',', "_")); }
         let script = *r.pick(&["N,n", "N,n,n", "n,n,n", "N", "n,c,n", "c,n", "n,n,k,n,n", "N,c,n", "n,k,n", "N,k,n",
@@ -3064,13 +3135,40 @@ fn main() {
         }
     }
     // (U) my clauses on the saturation path of the WebSocket off-reader cap: pipelined `next`s, cap = 1
-    for kk in 0..(if thorough { 60 } else { 10 }) {
+    for kk in 0..(if thorough { 40 } else { 6 }) {
         let chunk = *r.pick(&[1usize, 3, 7, 64]);
         let mut p = base("wsc1", "reader", 0, chunk, r.below(9) as usize);
         p.len = chunk * (3 + r.below(12) as usize) + r.below(chunk as u64 + 1) as usize;
         p.piece = *r.pick(&[1usize, 5, 8192]);
         if kk % 3 == 0 { p.speed = 'p'; }
         run.cnext(&p, 2 + r.below(3) as usize);
+    }
+    // (Y) payloads whose CONTENT looks like the crate's own framing (a valid zstd stream, the zstd magic + garbage, REPE frames,
+    // BEVE bodies of the protocol, `last`-marker bytes), uncompressed and compressed, raw and through every byte puller
+    for fl in 0..N_FLAVOURS {
+        for &comp in &[0u8, 1] {
+            for (ci, &(srv, client)) in [("tcp", "sync"), ("tcp", "async"), ("ws", "wsc")].iter().enumerate() {
+                rot += 1;
+                let chunk = *r.pick(&[1usize, 3, 7, 64, 4096]);
+                let kind = ["reader", "writer:0"][rot % 2];
+                let n = match rot % 4 { 0 => 4, 1 => 5 + r.below(60) as usize, 2 => 200 + r.below(3000) as usize, _ => 3 * chunk + 1 };
+                let mut p = sized(&mut r, base(srv, kind, comp, chunk, rot % 9), n);
+                p.seed = FLAVOUR_BASE + fl + N_FLAVOURS * r.below(1000);
+                if kind.starts_with("writer") && comp == 1 { p.variant = format!("e={}", evs_tok(&p.evs).replace(',', "_")); }
+                run.hl(&p, client, ["vec", "call", "file", "c1"][(rot / 2 + ci) % 4]);
+                if ci == (fl as usize) % 3 { run.raw(&p, "N,n"); }
+            }
+        }
+    }
+    // (Z) the default configuration's top chunk size with at least one FULL chunk, through the pullers (the `next` frame is then
+    // 48 + 1 + 1 MiB bytes): StreamOpts::default() itself (zstd 3, depth 4) with incompressible data, and uncompressed
+    for (k, &(srv, client)) in [("tcp", "sync"), ("tcp", "async"), ("ws", "wsc"), ("tcp", "sync"), ("ws", "wsc"), ("tcp", "async")].iter().enumerate() {
+        let comp = (k % 2) as u8;
+        let mut p = base(srv, "reader", comp, 1 << 20, 4);
+        p.level = 3;
+        p.len = (1 << 20) + [0usize, 5, (1 << 20) + 1][k % 3] + if comp == 1 { 4096 } else { 0 };
+        if comp == 1 { p.seed = 1 + r.below(1 << 30); }
+        run.hl(&p, client, ["vec", "call", "file"][k % 3]);
     }
     // (F2) two streams open at once on one connection: isolation of sessions, ids, lookahead
     for _ in 0..(if thorough { 600 } else { 60 }) {
